@@ -24,10 +24,19 @@ def write_if_changed(path, content):
 def main():
     os.makedirs(GEN, exist_ok=True)
     import gen_tables
+    import translate_funcs
     changed = []
     for name, content in gen_tables.generate().items():
         if write_if_changed(os.path.join(GEN, name), content):
             changed.append(name)
+    # function translator (Python AST -> Lean definitions, Gen/F_<name>.lean)
+    report = []
+    for name, content in translate_funcs.generate(report).items():
+        if write_if_changed(os.path.join(GEN, name), content):
+            changed.append(name)
+    for func, fname, err in report:
+        if err is not None:
+            print("translator: UNTRANSLATABLE %s -> %s: %s" % (func, fname, err))
     print("translator: %d file(s) changed: %s" % (len(changed), ", ".join(changed)))
     return 0
 
